@@ -49,9 +49,11 @@ def _elem_value(r, d):
 # plan generation
 
 def gen_plan(r, index, tier):
-    kind = r.choice(['OF', 'OF', 'OF', 'REC', 'REC', 'CHOICE', 'SCALAR'])
+    kind = r.choice(['OF', 'OF', 'OF', 'REC', 'REC', 'CHOICE', 'SCALAR', 'DYN'])
     if kind == 'OF':
         return _gen_of(r)
+    if kind == 'DYN':
+        return _gen_dyn(r)
     if kind == 'REC':
         return _gen_rec(r)
     if kind == 'CHOICE':
@@ -135,6 +137,30 @@ def _gen_of(r):
                 bad = r.choice(['getitem_neg_far', 'setitem_bad_type', 'index_absent'])
             ops.append([bad, r.choice([1, 2, 5])])
     return {'check': ID, 'kind': 'OF', 'desc': desc, 'typed': typed, 'ops': ops}
+
+
+def _gen_dyn(r):
+    """SEQUENCE/SET without declared components: positions are dynamic fields 'field-N', the only
+    documented way to grow is assigning position len."""
+    elems = [ELEMS[0], ELEMS[1], ELEMS[2]]
+    ops = []
+    for _ in range(r.choice([5, 12, 30])):
+        x = r.random()
+        e = r.choice(elems)
+        if x < 0.45:
+            m = r.choice(['append_pos', 'append_pos', 'set_pos', 'set_name', 'clear', 'reset', 'clone'])
+            if m in ('append_pos', 'set_pos', 'set_name'):
+                ops.append([m, r.randrange(8), e, _elem_value(r, e)])
+            elif m == 'clone':
+                ops.append(['clone', r.random() < 0.7])
+            else:
+                ops.append([m])
+        elif x < 0.85:
+            rd = r.choice(['get_pos', 'get_name', 'keys', 'len', 'contains', 'encode', 'isValue', 'prettyPrint', 'iter'])
+            ops.append([rd, r.randrange(8)])
+        else:
+            ops.append([r.choice(['set_pos_far', 'get_name_unknown', 'set_name_unknown', 'get_pos_far']), r.choice([1, 2, 5])])
+    return {'check': ID, 'kind': 'DYN', 'desc': {'k': r.choice(['SEQ', 'SET']), 'tags': [], 'fields': []}, 'ops': ops}
 
 
 REC_FIELDS = [
@@ -286,7 +312,7 @@ def execute(plan):
     trace = []
     ctr = {'kind.%s' % kind: 1}
     try:
-        runner = {'OF': OfRun, 'REC': RecRun, 'CHOICE': ChoiceRun, 'SCALAR': ScalarRun}[kind](plan)
+        runner = {'OF': OfRun, 'REC': RecRun, 'CHOICE': ChoiceRun, 'SCALAR': ScalarRun, 'DYN': DynRun}[kind](plan)
     except Exception as e:
         return common.skip_result('build:%s' % type(e).__name__)
     n_mut = n_other = 0
@@ -1001,6 +1027,159 @@ class ChoiceRun(object):
                 o.getComponentByPosition(na + op[1])
             elif k == 'set_pos_far':
                 o.setComponentByPosition(na + op[1], U.p.univ.Integer(1))
+            else:
+                return 'skip'
+        except Exception as e:
+            if not _lib_or_lookup(e):
+                raise Fail('ill-formed-op-wrong-exception', exc_cls=type(e).__name__, msg=str(e)[:120])
+        else:
+            raise Fail('ill-formed-op-accepted', before=repr(before)[:160], after=repr(self.observe(o))[:160])
+        if self.observe(o) != before:
+            raise Fail('failed-op-changed-object', before=repr(before)[:200], after=repr(self.observe(o))[:200])
+        return 'bad'
+
+
+# ---------------------------------------------------------------------------
+# SEQUENCE / SET without declared components (dynamic field names)
+
+class DynRun(object):
+    def __init__(self, plan):
+        cls = U.P()['classes'][plan['desc']['k']]
+        self.cls = cls
+        self.o = cls()
+        self.m = None          # None = schema; else list of (elem desc, pv)
+        self.frozen = []
+
+    def obj(self, e, pv):
+        return U.build_value(U.build_schema(e), e, pv)
+
+    def observe(self, o):
+        from pyasn1 import error
+        try:
+            n = len(o)
+        except error.PyAsn1Error:
+            n = 'schema'
+        items = []
+        if isinstance(n, int):
+            for i in range(n):
+                c = o.getComponentByPosition(i, default=None, instantiate=False)
+                items.append(None if c is None else U.absval(c))
+        try:
+            isv = bool(o.isValue)
+        except Exception as e:
+            isv = 'isValue!' + type(e).__name__
+        try:
+            names = [str(k) for k in o.keys()]
+        except error.PyAsn1Error:
+            names = 'schema'
+        except Exception as e:
+            names = '!' + type(e).__name__
+        return (n, tuple(items), isv, _observe_der(o, isv), names)
+
+    def expected(self, m):
+        if m is None:
+            return ('schema', (), False, 'not-a-value', [])
+        fresh = self.cls()
+        fresh.clear()
+        for i, (e, pv) in enumerate(m):
+            fresh.setComponentByPosition(i, self.obj(e, pv))
+        return (len(m), tuple(U.absval(self.obj(e, pv)) for e, pv in m), True, _der(fresh) if True else None,
+                ['field-%d' % i for i in range(len(m))])
+
+    def check_state(self, where):
+        got, want = self.observe(self.o), self.expected(self.m)
+        if self.m is None:
+            # a schema object: len()/keys() may either raise the library error or report emptiness
+            if got[0] not in ('schema', 0) or got[2] is not False:
+                raise Fail('state-differs-from-model:schema', where=where, got=repr(got)[:200])
+        else:
+            for name, g, w in zip(('len', 'content', 'isValue', 'der', 'names'), got, want):
+                if g != w:
+                    raise Fail('state-differs-from-model:%s' % name, where=where, got=repr(g)[:200], want=repr(w)[:200])
+        for fo, fm in self.frozen:
+            if fm is not None and self.observe(fo) != self.expected(fm):
+                raise Fail('clone-source-moved', where=where)
+
+    def step(self, op):
+        from pyasn1 import error
+        k = op[0]
+        o, m = self.o, self.m
+        before = self.observe(o)
+        ml = list(m) if m is not None else []
+        n = len(ml)
+        if k in ('append_pos', 'set_pos', 'set_name', 'clear', 'reset', 'clone'):
+            try:
+                if k == 'append_pos':
+                    o.setComponentByPosition(n, self.obj(op[2], op[3]))
+                    self.m = ml + [(op[2], op[3])]
+                elif k in ('set_pos', 'set_name'):
+                    if not n:
+                        return 'skip'
+                    i = op[1] % n
+                    if k == 'set_pos':
+                        o.setComponentByPosition(i, self.obj(op[2], op[3]))
+                    else:
+                        o['field-%d' % i] = self.obj(op[2], op[3])
+                    ml[i] = (op[2], op[3])
+                    self.m = ml
+                elif k == 'clear':
+                    o.clear()
+                    self.m = []
+                elif k == 'reset':
+                    o.reset()
+                    self.m = None
+                else:
+                    c = o.clone(cloneValueFlag=op[1])
+                    self.frozen = [(o, copy.deepcopy(m))]
+                    self.o = c
+                    self.m = copy.deepcopy(m) if op[1] else None
+            except Exception as e:
+                raise Fail('well-formed-mutator-raised', exc_cls=type(e).__name__, msg=str(e)[:120])
+            self.check_state('after-' + k)
+            return 'mut'
+        if k in ('get_pos', 'get_name', 'keys', 'len', 'contains', 'encode', 'isValue', 'prettyPrint', 'iter'):
+            if m is None:
+                return 'skip'
+            try:
+                if k in ('get_pos', 'get_name'):
+                    if not n:
+                        return 'skip'
+                    i = op[1] % n
+                    x = o[i] if k == 'get_pos' else o['field-%d' % i]
+                    got, want = U.absval(x), U.absval(self.obj(*ml[i]))
+                elif k == 'keys':
+                    got, want = [str(x) for x in o.keys()], ['field-%d' % i for i in range(n)]
+                elif k == 'len':
+                    got, want = len(o), n
+                elif k == 'contains':
+                    name = 'field-%d' % op[1]
+                    got, want = (name in o), (op[1] < n)
+                elif k == 'encode':
+                    got, want = _der(o), self.expected(ml)[3]
+                elif k == 'isValue':
+                    got, want = bool(o.isValue), True
+                elif k == 'iter':
+                    got, want = [str(x) for x in o], ['field-%d' % i for i in range(n)]
+                else:
+                    o.prettyPrint()
+                    repr(o)
+                    got = want = None
+            except Exception as e:
+                raise Fail('well-formed-reader-raised', exc_cls=type(e).__name__, msg=str(e)[:120])
+            if got != want:
+                raise Fail('reader-result-differs-from-model', got=repr(got)[:160], want=repr(want)[:160])
+            if self.observe(o) != before:
+                raise Fail('reader-changed-object', before=repr(before)[:200], after=repr(self.observe(o))[:200])
+            return 'read'
+        try:
+            if k == 'set_pos_far':
+                o.setComponentByPosition(n + op[1], U.p.univ.Integer(1))
+            elif k == 'get_pos_far':
+                o.getComponentByPosition(n + op[1])
+            elif k == 'get_name_unknown':
+                o['no_such_field']
+            elif k == 'set_name_unknown':
+                o['no_such_field'] = U.p.univ.Integer(1)
             else:
                 return 'skip'
         except Exception as e:
